@@ -40,6 +40,48 @@ Theorem C08_front_end : forall (A B : Type) (eqA : A -> A -> bool) (eqB : B -> B
 Proof. exact frontend_rename. Qed.
 Print Assumptions C08_front_end.
 
+(* ---------- the WHOLE Layout (Proofs/RenameLayout.v): every pipeline of the model — weighted-median or no-op ordering, every
+   positioner, straight/polyline/orthogonal routing, and spline routing over any router and fitter — returns, for the renamed
+   input, the same nodes, edges and crossing numbers, with the name table renamed (the output refers to nodes by index into
+   that table); and fails with the same error when it fails ---------- *)
+From Autog Require Import Layout Pipeline PipelineBK PipelineNoop PipelineSpl RenameLayout.
+Theorem C08_layout_renamed : forall (A B : Type) (eqA : A -> A -> bool) (eqB : B -> B -> bool) (rho : A -> B),
+  (forall x y, eqB (rho x) (rho y) = eqA x y) ->
+  forall bk o fixed sizes es,
+    layout_x B eqB bk o fixed (rename_sizes rho sizes) (map (map rho) es) = rename_result rho (layout_x A eqA bk o fixed sizes es).
+Proof. exact layout_x_rename. Qed.
+Print Assumptions C08_layout_renamed.
+
+Theorem C08_layout_renamed_noop_ordering : forall (A B : Type) (eqA : A -> A -> bool) (eqB : B -> B -> bool) (rho : A -> B),
+  (forall x y, eqB (rho x) (rho y) = eqA x y) ->
+  forall bk o fixed sizes es,
+    layout_n B eqB bk o fixed (rename_sizes rho sizes) (map (map rho) es) = rename_result rho (layout_n A eqA bk o fixed sizes es).
+Proof. exact layout_n_rename. Qed.
+Print Assumptions C08_layout_renamed_noop_ordering.
+
+Theorem C08_layout_renamed_spline_routing : forall (A B : Type) (eqA : A -> A -> bool) (eqB : B -> B -> bool) (rho : A -> B),
+  (forall x y, eqB (rho x) (rho y) = eqA x y) ->
+  forall shortest fit mk_inner bk o fixed sizes es,
+    layout_sx shortest fit mk_inner B eqB bk o fixed (rename_sizes rho sizes) (map (map rho) es)
+    = rename_result rho (layout_sx shortest fit mk_inner A eqA bk o fixed sizes es).
+Proof. exact layout_sx_rename. Qed.
+Print Assumptions C08_layout_renamed_spline_routing.
+
+(* the premise is satisfiable and the statement is not about an always-failing call: names 1.. renamed to strings *)
+From Coq Require String.
+Definition c08_rho (n : nat) : String.string := String.String (Ascii.ascii_of_nat (65 + n)) String.EmptyString.
+Definition c08_o := mkOptions DepthFirst LongestPath OtherPositioner Polyline 1 0 5 7 false.
+Definition c08_es : list (list nat) := [[1; 2]; [2; 3]; [1; 3]; [4; 5]]%nat.
+Example C08_renaming_instance_injective : forall x y, (x < 20)%nat -> (y < 20)%nat -> String.eqb (c08_rho x) (c08_rho y) = Nat.eqb x y.
+Proof.
+  intros x y Hx Hy.
+  do 20 (destruct x as [|x]; [do 20 (destruct y as [|y]; [reflexivity|]); exfalso; Lia.lia|]). exfalso; Lia.lia.
+Qed.
+Example C08_renaming_instance : exists ids r,
+  layout_x nat Nat.eqb 0 c08_o None None c08_es = Ok (ids, r) /\
+  layout_x String.string String.eqb 0 c08_o None None (map (map c08_rho) c08_es) = Ok (map c08_rho ids, r).
+Proof. eexists; eexists; split; vm_compute; reflexivity. Qed.
+
 (* obligation over the regenerated source facts: IDs are read only where they are copied or printed *)
 Theorem C08_ids_are_only_copied : id_reads_allowed = true.
 Proof. vm_compute; reflexivity. Qed.
